@@ -647,13 +647,13 @@ func (ts *TermStore) bin(op Op, a, b *Term) *Term {
 	return ts.mk(&Term{Op: op, Sort: a.Sort, Args: []*Term{a, b}})
 }
 
-func (ts *TermStore) Add(a, b *Term) *Term  { return ts.bin(OpBvAdd, a, b) }
-func (ts *TermStore) Sub(a, b *Term) *Term  { return ts.bin(OpBvSub, a, b) }
-func (ts *TermStore) Mul(a, b *Term) *Term  { return ts.bin(OpBvMul, a, b) }
-func (ts *TermStore) UDiv(a, b *Term) *Term { return ts.bin(OpBvUDiv, a, b) }
-func (ts *TermStore) URem(a, b *Term) *Term { return ts.bin(OpBvURem, a, b) }
-func (ts *TermStore) SDiv(a, b *Term) *Term { return ts.bin(OpBvSDiv, a, b) }
-func (ts *TermStore) SRem(a, b *Term) *Term { return ts.bin(OpBvSRem, a, b) }
+func (ts *TermStore) Add(a, b *Term) *Term   { return ts.bin(OpBvAdd, a, b) }
+func (ts *TermStore) Sub(a, b *Term) *Term   { return ts.bin(OpBvSub, a, b) }
+func (ts *TermStore) Mul(a, b *Term) *Term   { return ts.bin(OpBvMul, a, b) }
+func (ts *TermStore) UDiv(a, b *Term) *Term  { return ts.bin(OpBvUDiv, a, b) }
+func (ts *TermStore) URem(a, b *Term) *Term  { return ts.bin(OpBvURem, a, b) }
+func (ts *TermStore) SDiv(a, b *Term) *Term  { return ts.bin(OpBvSDiv, a, b) }
+func (ts *TermStore) SRem(a, b *Term) *Term  { return ts.bin(OpBvSRem, a, b) }
 func (ts *TermStore) BvAnd(a, b *Term) *Term { return ts.bin(OpBvAnd, a, b) }
 func (ts *TermStore) BvOr(a, b *Term) *Term  { return ts.bin(OpBvOr, a, b) }
 func (ts *TermStore) BvXor(a, b *Term) *Term { return ts.bin(OpBvXor, a, b) }
